@@ -176,8 +176,11 @@ structure Delta where
   removed : List Removed := []
   renamed : List Renamed := []
   kindChanged : List KindChanged := []
-  /-- added and copied: the new paths -/
+  /-- added: the new paths -/
   added : List Path := []
+  /-- copied (only git trees report copies: content that also appears at a path the revision removes or renames
+  away): the new paths.  `upload_tree` handles `changes.added + changes.copied` alike. -/
+  copied : List Path := []
   modified : List Path := []
   deriving DecidableEq, Repr
 
@@ -276,7 +279,7 @@ def planInc (c : Cfg) (ign : List String) (t : Tree) (d : Delta) : List Step :=
         -- as found the code deletes at `change.path[0]`, after the renames have been finished
         | .dir => [Step.rmdir (if c.kindChangeAtNew then k.path else k.old)]
         | _ => [Step.delete (if c.kindChangeAtNew then k.path else k.old)]) ++ createSteps c t k.path)
-  ++ ((d.added.filter (fun p => !ignored ign p)).flatMap (createSteps c t))
+  ++ (((d.added ++ d.copied).filter (fun p => !ignored ign p)).flatMap (createSteps c t))
   ++ ((d.modified.filter (fun p => !ignored ign p)).flatMap fun p =>
       match t.find p with
       | some e =>
@@ -491,7 +494,7 @@ def deltaOK (ign : List String) (old new : Tree) (d : Delta) : Bool :=
   let ok := fun (p : Path) => !ignored ign p
   let rm := d.removed.filter fun r => ok r.path
   let kc := d.kindChanged.filter fun k => ok k.path
-  let ad := d.added.filter ok
+  let ad := (d.added ++ d.copied).filter ok
   let md := d.modified.filter ok
   let rmP := rm.map (·.path)
   let kcP := kc.map (·.path)
